@@ -82,6 +82,7 @@ type Exec struct {
 	pathObl      int
 	ghost        map[string]int64
 	ghostTerm    map[string]*Term
+	hashBuf      map[*Value][]Value
 	top          *frame
 	model        map[string]uint64 // a satisfying assignment of pc (by smt var name), or nil
 	maxDepthAll  int
@@ -504,6 +505,7 @@ func (e *Exec) runPath(prefix []decision, entry *ssa.Function) (out pathOutcome)
 	e.pathObl = 0
 	e.ghost = map[string]int64{}
 	e.ghostTerm = map[string]*Term{}
+	e.hashBuf = map[*Value][]Value{}
 	e.locks = map[*Value]int{}
 	e.timers = nil
 	e.top = nil
